@@ -9,6 +9,7 @@ Decided clauses:
 Not decided: digest equality for all messages/chunkings.
 """
 from rules import driver, core, r_wipe
+from rules.core import strip_casts, key
 from props import common, fixtures, hashes
 
 TRUSTED = ["clang 14 front end + CFG builder", "tool/lcbfacts.cc", "rules/core.py post-dominators", "python3"]
@@ -120,6 +121,53 @@ def mask_width_rule(rep, u, own_file):
     return n
 
 
+def block_step_rule(rep, u, own_file):
+    """Streebog's compression takes the running bit counter N as an input of every block (K = LPS(h xor N)), so N - and the
+    checksum Sigma - must advance once per block *inside* the multi-block loop: an update hoisted out of the loop gives every
+    block after the first a stale N.  For each transform_n_* variant: every call that advances the 512-bit counter or the
+    checksum lies in the block loop itself (not in an inner loop, not after the loop), on every path of an iteration, and
+    the counter advances by the function's own per-block bit count."""
+    n = 0
+    for fn in u.function_list:
+        if fn.relfile() != own_file or not fn.has_cfg or "transform_n_" not in fn.name:
+            continue
+        loops = fn.loops()
+        pptr = {p["n"] for p in fn.params if u.type(p["t"])["k"] == "ptr"}
+        blk = None
+        for h, body in loops.items():
+            c = fn.blocks[h].cond
+            c0 = strip_casts(c) if c is not None else None
+            if c0 is not None and c0.get("k") == "bin" and c0["op"] in ("<", "!=", "<=") and \
+                    {r["n"] for r in core.refs(c0)} <= pptr and len({r["n"] for r in core.refs(c0)}) == 2:
+                blk = (h, body)
+        upd = [(pos, c) for pos, root, c, ps in fn.calls() if (c.get("fn") or "").endswith("addmod512_digit") or (c.get("fn") or "").endswith("addmod512")]
+        if blk is None or not upd:
+            if "generic" in fn.name:
+                raise driver.AnalysisBroken("%s: block loop or counter update not found" % fn.name)
+            continue
+        h, body = blk
+        latches = [b for b in body if h in fn.blocks[b].rsucc()]
+        for pos, c in upd:
+            n += 1
+            rep.functions.add(fn.name)
+            what = "counter N" if c["fn"].endswith("_digit") else "checksum Sigma"
+            inst = "block-step:%s:%s" % (c["fn"].split("2012_")[-1], key(strip_casts(c["args"][0]))[:30])
+            desc = "%s: the %s advances once per block inside the block loop" % (fn.name, what)
+            inner = [hh for hh, bb in loops.items() if hh != h and pos[0] in bb and set(bb) < set(body)]
+            if pos[0] not in body:
+                rep.violated("R-SPEC", fn, inst, desc, "the update at line %s is outside the block loop: every block after the first of one call is "
+                             "compressed with a stale value" % c.get("ln"), c.get("ln"))
+            elif inner:
+                rep.violated("R-SPEC", fn, inst, desc, "the update at line %s sits in an inner loop" % c.get("ln"), c.get("ln"))
+            elif not all(fn.dominates(pos[0], l) for l in latches):
+                rep.violated("R-SPEC", fn, inst, desc, "the update at line %s is skipped on some path of an iteration" % c.get("ln"), c.get("ln"))
+            elif c["fn"].endswith("_digit") and not (strip_casts(c["args"][1]).get("k") == "ref" and strip_casts(c["args"][1]).get("dk") == "parm"):
+                rep.violated("R-SPEC", fn, inst, desc, "the counter advances by %s instead of the per-block bit count parameter" % key(c["args"][1])[:60], c.get("ln"))
+            else:
+                rep.proved("R-SPEC", fn, inst, desc, "line %s, in the loop at line %s" % (c.get("ln"), (fn.blocks[h].term or {}).get("ln")), c.get("ln"))
+    return n
+
+
 def run(rep, tier):
     specs = hashes.units(tier)
     us = driver.load_units([s for (_, _, s) in specs])
@@ -138,6 +186,10 @@ def run(rep, tier):
     for (h, lab, s) in specs:
         nm += mask_width_rule(rep, us[s.label], "include/" + hashes.HASHES[h]["hdr"])
     rep.floor("complement masks in the hash headers", nm, 4)
+    nb = 0
+    for (h, lab, s) in specs:
+        nb += block_step_rule(rep, us[s.label], "include/" + hashes.HASHES[h]["hdr"])
+    rep.floor("Streebog per-block state updates", nb, 2)
     from props import c04_tables, c04_more
     c04_tables.run(rep, specs, us, tier)
     c04_more.run(rep, specs, us, tier)
